@@ -5,12 +5,12 @@ go 1.23
 require (
 	github.com/alibaba/RedisShake v0.0.0
 	github.com/cupcake/rdb v0.0.0-20161107195141-43ba34106c76
+	github.com/garyburd/redigo v1.6.2
 )
 
 require (
 	github.com/FZambia/go-sentinel v0.0.0-20171204085413-76bd05e8e22f // indirect
 	github.com/beorn7/perks v1.0.0 // indirect
-	github.com/garyburd/redigo v1.6.2 // indirect
 	github.com/golang/protobuf v1.3.2-0.20190517061210-b285ee9cfc6c // indirect
 	github.com/gugemichael/nimo4go v0.0.0-20190904073057-32795d80f83a // indirect
 	github.com/matttproud/golang_protobuf_extensions v1.0.2-0.20181231171920-c182affec369 // indirect
